@@ -10,6 +10,7 @@ from engine import pat
 from engine.util import calls_with_nodes, where, own_nodes
 
 RULES = {
+    "R-11.5": "snapshot isolation of B-tree zones rests on copy-on-write ownership in dns/btree.py (C19 R-19.1), and immutable rdatasets rest on dns.immutable.Dict copying its source (C07 R-07.8): both are adopted",
     "R-11.1": "every method with a non-empty write set is, in each immutable subclass, overridden by a raising body or blocked by construction (field rebound to a frozen container lacking the operation; class is @immutable)",
     "R-11.2": "ImmutableVersion freezes changed nodes and the map (and delegations); every version published by a versioned zone comes from the immutable factory",
     "R-11.3": "reads hand out frozen views (Transaction.get/get_node, versioned.Zone.find/get_rdataset); legacy zone mutators raise or are blocked",
@@ -321,6 +322,8 @@ def run(model, rep, tier):
               "ending a read does not (unregister the reader and prune)", stmt="end-read")
     rep.assume("tuple and collections.abc.Mapping provide no mutating methods (interpreter builtins, introspected with hasattr)")
     rep.assume("a frozen dns.btree.BTreeDict rejects mutation (decided under C19 R-19.2)")
+    rep.share(model, "C19", {"R-19.1"}, "R-11.5", "a reader's version shares B-tree nodes with every later writable version")
+    rep.share(model, "C07", {"R-07.8"}, "R-11.5", "committed rdatasets are frozen by wrapping their items in dns.immutable.Dict")
     rep.meta["explanation"] = (
         "Write-set (effect) analysis of every method reachable on the snapshot classes, resolved in the context of each immutable subclass; "
         "a mutator must be overridden by a raising body or be blocked because the field it mutates is rebound to a frozen container that lacks "
@@ -346,6 +349,10 @@ def _is_immutable_version_expr(model, f, arg):
 
 
 WITNESSES = [
+    {"id": "c11-immutable-rdataset-aliases-source", "rule": "R-11.5", "file": "dns/rdataset.py", "expect": "fires",
+     "old": "        self.items = dns.immutable.Dict(rdataset.items)", "new": "        self.items = dns.immutable.Dict(rdataset.items, True)"},
+    {"id": "c11-btree-steal-writes-shared-node", "rule": "R-11.5", "file": "dns/btree.py", "expect": "fires",
+     "old": "            if not right.is_minimal():\n                right = parent.maybe_cow_child(index + 1)\n", "new": "            if not right.is_minimal():\n"},
     {"id": "c11-items-plain-dict", "rule": "R-11.1", "file": "dns/rdataset.py", "expect": "fires",
      "old": "        self.items = dns.immutable.Dict(rdataset.items)", "new": "        self.items = dict(rdataset.items)"},
     {"id": "c11-rdatasets-list", "rule": "R-11.1", "file": "dns/zone.py", "expect": "fires",
